@@ -361,6 +361,8 @@ func stressOne(c *vf.Ctx, seed int64, batch, iter int, race bool) {
 		cls := "other"
 		if strings.Contains(*m, "WaitGroup is reused") {
 			cls = "waitgroup-reuse"
+		} else if strings.Contains(*m, "WaitGroup misuse") {
+			cls = "waitgroup-misuse"
 		}
 		c.Count("stress_window_hits", 1)
 		viol("late-bgworker:shutdown-panic-"+cls, "free-running: ShutdownAndWait racing with BackgroundWorker panicked: "+*m)
@@ -401,6 +403,8 @@ func stressOne(c *vf.Ctx, seed int64, batch, iter int, race bool) {
 			cls := "other"
 			if strings.Contains(w.pan, "assignment to entry in nil map") {
 				cls = "nil-map"
+			} else if strings.Contains(w.pan, "WaitGroup misuse") {
+				cls = "waitgroup-misuse"
 			}
 			c.Count("stress_window_hits", 1)
 			viol("late-bgworker:panic-"+cls, fmt.Sprintf("free-running: BackgroundWorker(%s) racing with ShutdownAndWait panicked: %s", w.name, w.pan))
